@@ -299,6 +299,10 @@ void run_pca(const Case& c, Result& r)
         return;
     }
     double tolq = randomized ? 1e-6 : 1e-10;
+    // The covariance is a difference of second moments and mean products: with a mean far from the origin, |x|^2 / lambda_1
+    // digits cancel in ANY floating-point evaluation that does not centre first (the library's one-pass formula E[xx^T] - mm^T
+    // is such an evaluation and a legitimate one). The value clauses are judged to that conditioning, not tighter.
+    const double tol9 = std::max(randomized ? 1e-6 : 1e-9, 100 * 2.2e-16 * scale * scale / l1);
     double odev = (P.transpose() * P - Mat::Identity(s.td, s.td)).cwiseAbs().maxCoeff();
     r.maxnum("pca_orthonormality", odev);
     if (odev > tolq)
@@ -307,14 +311,14 @@ void run_pca(const Case& c, Result& r)
     // captured variance
     double cap = (P.transpose() * C * P).trace(), opt = sp.vals.head(s.td).sum();
     r.maxnum("pca_variance_shortfall", (opt - cap) / l1);
-    if (std::fabs(opt - cap) > (randomized ? 1e-6 : 1e-9) * l1)
+    if (std::fabs(opt - cap) > tol9 * l1)
         r.violation("pca:variance-not-optimal", sf("captured variance %.12g, optimum %.12g (lambda_1 %.3g)", cap, opt, l1));
     Rng g((uint64_t)c.i("dseed", 1) + 5);
     for (int t = 0; t < 50; ++t)
     {
         Mat Q = random_orthogonal(s.D, g).leftCols(s.td);
         double v = (Q.transpose() * C * Q).trace();
-        if (v > cap + 1e-9 * l1)
+        if (v > cap + tol9 * l1)
         {
             r.violation("pca:random-frame-captures-more", sf("a random orthonormal frame captures %.12g > %.12g", v, cap));
             break;
@@ -324,7 +328,7 @@ void run_pca(const Case& c, Result& r)
     {
         double sd = subspace_dist(P, sp.vecs.leftCols(s.td));
         r.maxnum("pca_subspace_dist", sd);
-        if (sd > (randomized ? 1e-6 : 1e-9) / gap)
+        if (sd > tol9 / gap)
             r.violation("pca:not-principal-subspace", sf("distance to the leading eigenspace %.3g (gap %.3g)", sd, gap));
         // uncorrelated columns with the top eigenvalues as variances
         Mat Cy = Y.transpose() * Y / s.N;
@@ -341,7 +345,7 @@ void run_pca(const Case& c, Result& r)
         double vd = 0;
         for (int i = 0; i < s.td; ++i)
             vd = std::max(vd, std::fabs(var[i] - sp.vals(i)) / l1);
-        if (off > (randomized ? 1e-6 : 1e-9) * 10 || vd > (randomized ? 1e-6 : 1e-9))
+        if (off > tol9 * 10 || vd > tol9)
             r.violation("pca:embedding-covariance", sf("off-diagonal %.3g, variance deviation %.3g (of lambda_1)", off, vd));
         // PCA == linear Kernel PCA == Euclidean MDS up to column signs (Gram matrices agree)
         if (!randomized && c.i("cross", 0))
@@ -496,7 +500,7 @@ Mat lle_reference(Setup& s, const Neighbors& nb, double kshift, double nshift)
 }
 
 // reference LTSA alignment matrix; min_gap returns the smallest local eigen-gap at the cut
-Mat ltsa_reference(Setup& s, const Neighbors& nb, int td, double nshift, double& min_gap)
+Mat ltsa_reference(Setup& s, const Neighbors& nb, int td, double nshift, double& min_gap, double* cancellation = nullptr)
 {
     int N = s.N;
     Mat M = nshift * Mat::Identity(N, N);
@@ -508,7 +512,11 @@ Mat ltsa_reference(Setup& s, const Neighbors& nb, int td, double nshift, double&
         for (int a = 0; a < k; ++a)
             for (int b = 0; b < k; ++b)
                 G(a, b) = s.cb->kval(nb[i][a], nb[i][b]);
-        Spectrum sp = sym_eig_desc(double_center(G));
+        Mat Gc = double_center(G);
+        // digits lost when the local Gram matrix is centred (a very wide RBF kernel has all its values near 1)
+        if (cancellation)
+            *cancellation = std::max(*cancellation, G.cwiseAbs().maxCoeff() / std::max(1e-300, Gc.cwiseAbs().maxCoeff()));
+        Spectrum sp = sym_eig_desc(Gc);
         if (td < k)
             min_gap = std::min(min_gap, rel_gap_desc(sp.vals, td));
         Mat V = sp.vecs.leftCols(td);
@@ -554,13 +562,16 @@ void run_lle(const Case& c, Result& r)
     }
     else if (m == "kltsa")
     {
-        double mg = 1;
-        Mat Mr = ltsa_reference(s, nb, s.td, nshift, mg);
+        double mg = 1, cancel = 1;
+        Mat Mr = ltsa_reference(s, nb, s.td, nshift, mg, &cancel);
         double dev = (M - Mr).cwiseAbs().maxCoeff() / nM;
         r.maxnum("ltsa_M_dev", dev);
+        r.maxnum("ltsa_local_gram_cancellation", cancel);
         if (mg >= 1e-6)
         {
-            if (dev > 1e-8 / mg)
+            // tangent bases are determined to (rounding of the centred Gram entries) / gap: 1e-8 in ordinary cases, more when
+            // centring cancels many digits (measured: 1.5e-7 at gamma = 1e-7, cancellation 1e8, gap 0.09)
+            if (dev > std::max(1e-8, 50 * 2.2e-16 * cancel) / mg)
                 r.violation("kltsa:alignment-matrix-differs-from-reference", sf("entrywise deviation %.3g of max|M| (min local gap %.3g)", dev, mg));
         }
         else
